@@ -1,10 +1,17 @@
 (* C02, stroked lines: every pixel of Styled<Line>::pixels() lies in styled_bounding_box(), for every line with
-   |dx|, |dy| <= 14 (anywhere in the plane) and stroke widths 0..9, by computation on the model. *)
+   |dx|, |dy| <= 24 (anywhere in the plane) and stroke widths 0..16: by computation on the model over one quadrant of
+   deltas plus the axis-parallel and diagonal lines, and invariance under translation and rotation by 90 degrees. *)
 From EG Require Import Base.Prelude Model.Geometry Model.Line Model.Thickline Proofs.Line Proofs.ThicklineBox.
-Set Default Timeout 120.
+Set Default Timeout 300.
 
-Lemma box_block : box_grid_b (-14) 15 (-14) 15 9 = true.
+Lemma box_block_q1 : box_grid_b 1 25 1 25 16 = true.
+Proof. vm_compute. reflexivity. Qed.
+Lemma box_block_v : box_grid_b 0 1 (-24) 25 16 = true.
+Proof. vm_compute. reflexivity. Qed.
+Lemma box_block_h : box_grid_b (-24) 25 0 1 16 = true.
+Proof. vm_compute. reflexivity. Qed.
+Lemma box_block_d : box_diag_b 24 16 = true.
 Proof. vm_compute. reflexivity. Qed.
 
-Lemma thick_in_box_grid l w : -14 <= ldx l <= 14 -> -14 <= ldy l <= 14 -> 0 <= w <= 9 -> thick_in_box l w.
-Proof. intros Hx Hy Hw. apply (box_grid_b_sound _ _ _ _ _ box_block); lia. Qed.
+Lemma thick_in_box_grid l w : -24 <= ldx l <= 24 -> -24 <= ldy l <= 24 -> 0 <= w <= 16 -> thick_in_box l w.
+Proof. exact (thick_in_box_sym 24 16 box_block_q1 box_block_v box_block_h box_block_d l w). Qed.
